@@ -37,6 +37,7 @@ type Decision struct {
 	M       Model  // a model of the path condition just before this decision (immutable snapshot)
 	AltM    Model  // a model of the path condition plus the alternative side (when AltChecked)
 	AltChecked bool
+	Where   string
 }
 
 type InputRec struct {
@@ -582,6 +583,9 @@ func (ex *Exec) branch(c *Term) bool {
 	ex.ensureModel()
 	taken := ex.evalModel(c).Bool()
 	d := &Decision{Kind: 'b', Taken: taken, AltOpen: true, M: ex.model}
+	if ex.W.verbose && len(ex.callStack) > 0 {
+		d.Where = ex.callStack[len(ex.callStack)-1]
+	}
 	alt := c
 	if taken {
 		alt = Not(c)
